@@ -36,7 +36,7 @@ CONSTANTS
 """ + ''.join(f'INVARIANT {i}\n' for i in INVARIANTS) + 'CHECK_DEADLOCK FALSE\n'
 
 BOUNDS = {
-    'quick': dict(nmax=6, kmax=4, fmax=9, rank2='FALSE'),
+    'quick': dict(nmax=6, kmax=5, fmax=9, rank2='FALSE'),
     'thorough': dict(nmax=8, kmax=5, fmax=12, rank2='TRUE'),
 }
 
@@ -244,7 +244,8 @@ def _stratum(c: dict) -> str:
     fcls = 'default' if c['fft'] == -1 else ('min' if c['fft'] == 2 * c['K'] - 1 else 'mid')
     if c['method'] != 'overlap_save':
         fcls = ''
-    return f"{c['method']}/{c['xs']}{c['bs']}/K{c['K']}/{fcls}/{'K>n' if c['K'] > c['n'] else 'K<=n'}"
+    rel = 'K>=n+2,n>=3' if (c['K'] >= c['n'] + 2 and c['n'] >= 3) else ('K>n' if c['K'] > c['n'] else 'K<=n')
+    return f"{c['method']}/{c['xs']}{c['bs']}/K{c['K']}/{fcls}/{rel}"
 
 
 def _order(c: dict):
